@@ -26,6 +26,7 @@ pub fn conn_err(e: &ConnErr) -> ConnectionErrorIncoming {
         ConnErr::Timeout => ConnectionErrorIncoming::Timeout,
         ConnErr::LocallyClosed => ConnectionErrorIncoming::Undefined(Arc::new(SimError("locally closed"))),
         ConnErr::Undefined => ConnectionErrorIncoming::Undefined(Arc::new(SimError("transport error"))),
+        ConnErr::Internal => ConnectionErrorIncoming::InternalError("transport adapter failure".into()),
     }
 }
 
@@ -493,6 +494,9 @@ impl quic::RecvStream for SimRecv {
         let p = g.stream(self.id).pipe_r(side).expect("read pipe");
         if let Some(code) = p.reset {
             return Poll::Ready(Err(StreamErrorIncoming::StreamTerminated { error_code: code }));
+        }
+        if let Some(e) = p.read_conn_err.clone() {
+            return Poll::Ready(Err(stream_conn_err(&e)));
         }
         let avail = p.available();
         if avail == 0 {
